@@ -35,6 +35,7 @@ from ..utils import (
     _get_function_blocks,
     _is_call_edge,
     _is_fallthrough_edge,
+    _is_return_edge,
 )
 from .cache import ModifyCache
 
@@ -159,7 +160,11 @@ def add_return_edges_to_callee(
     for block in _get_function_blocks(module, func_uuid):
         assert block.ir
 
-        if not cache.return_cache.any_return_edges(block):
+        # The block returns if it has return edges in the IR or if an earlier
+        # call of the same patch already gave it one in the CFG being built.
+        if not cache.return_cache.any_return_edges(block) and not any(
+            _is_return_edge(edge) for edge in cfg.out_edges(block)
+        ):
             continue
 
         for return_edge in cache.return_cache.block_proxy_return_edges(block):
